@@ -54,6 +54,7 @@ type Func struct {
 	Opaque      bool // never auto-inline; without ensures results are havocked
 	NoFrame     bool // frame obligations are not generated (top-level actions without verified callers)
 	Callbacks   map[string]*Callback
+	Sites       map[string][]*Clause // "callee.K" -> assertions placed at that call site
 	Props       []string
 	Foreach     *Foreach
 	Names       []string // alternative names for parameters? (unused)
@@ -124,7 +125,7 @@ var keywords = map[string]bool{
 	"requires": true, "ensures": true, "loop": true, "modifies": true, "transparent": true,
 	"trusted": true, "safe": true, "pure": true, "property": true, "mode": true, "noreturn": true, "opaque": true,
 	"forall": true, "assume": true, "let": true, "assert": true, "foreach": true, "results": true,
-	"implements": true, "sets": true, "note": true, "noframe": true, "callback": true,
+	"implements": true, "sets": true, "note": true, "noframe": true, "callback": true, "site": true,
 }
 
 type rawLine struct {
@@ -383,6 +384,26 @@ func Parse(path, src string) (*File, error) {
 			default:
 				return nil, errf("callback: unknown sub-clause %q", fs[1])
 			}
+		case "site":
+			// site CALLEE.K[.LABEL] assert EXPR   an assertion in the body of the function under contract, placed
+			// at the K-th call (0-based, in source order of the SSA blocks) of CALLEE; EXPR is evaluated in
+			// the caller's state with its local variables by source name
+			if curF == nil {
+				return nil, errf("site outside func")
+			}
+			fs := strings.Fields(c.rest)
+			if len(fs) < 3 || fs[1] != "assert" {
+				return nil, errf("site: want 'site CALLEE.K assert EXPR'")
+			}
+			rest := strings.TrimSpace(strings.TrimPrefix(strings.TrimSpace(strings.TrimPrefix(c.rest, fs[0])), "assert"))
+			cl, err := mkClause("assert", rest)
+			if err != nil {
+				return nil, err
+			}
+			if curF.Sites == nil {
+				curF.Sites = map[string][]*Clause{}
+			}
+			curF.Sites[fs[0]] = append(curF.Sites[fs[0]], cl)
 		case "noframe":
 			if curF == nil {
 				return nil, errf("noframe outside func")
